@@ -73,7 +73,7 @@ func reorgScenario(a reorgArg) (*reorgResult, error) {
 	var lenX, lenY int
 	if a.Variant == "random" {
 		// fork a few momentums before the epoch boundary (momentum EpochMomentums+1 starts epoch 1), X crosses it
-		if err := w1.Run(walk.EpochMomentums - 12 + r.Intn(8)); err != nil {
+		if err := w1.Run(walk.EpochMomentums - 18 + r.Intn(6)); err != nil {
 			return nil, fmt.Errorf("p1 base: %v", err)
 		}
 	} else {
@@ -96,16 +96,17 @@ func reorgScenario(a reorgArg) (*reorgResult, error) {
 			Amount: new(big.Int).Mul(big.NewInt(amount), big.NewInt(100000000)), Data: definition.ABIPlasma.PackMethodPanic(definition.FuseMethodName, u.Address)}, u)
 	}
 	if a.Variant == "random" {
-		lenX = 14 + r.Intn(10)
+		lenX = 22 + r.Intn(6)
 		if err := w1.Run(lenX); err != nil {
 			return nil, fmt.Errorf("p1 branch X: %v", err)
 		}
 		w2 := walk.New(p2, a.Seed+7777)
 		lenY = lenX + 1 + r.Intn(4)
-		if lenY > 29 {
-			lenY = 29
+		// Y starts after two empty slots: the pillars' produced/expected counts of the epoch differ between the branches
+		if err := p2.Produce(2); err != nil {
+			return nil, fmt.Errorf("p2 branch Y: %v", err)
 		}
-		if err := w2.Run(lenY); err != nil {
+		if err := w2.Run(lenY - 1); err != nil {
 			return nil, fmt.Errorf("p2 branch Y: %v", err)
 		}
 	} else {
